@@ -1882,7 +1882,7 @@ func parseFontVariant(tokens []Token, all utils.Set, couples [][]string) pr.SStr
 		if !isIdent {
 			return pr.SStrings{}
 		}
-		identValue := string(ident.Value)
+		identValue := utils.AsciiLower(string(ident.Value)) // keywords are ASCII case-insensitive
 		if all.Has(identValue) {
 			var concurrentValues []string
 			for _, couple := range couples {
